@@ -123,6 +123,7 @@ def tasks(tier, seed):
         for NP, NMAX in [(1, 6), (2, 8), (3, 9), (4, 10)]:
             T.append(('L1', NP, NMAX))
         T.append(('witness',))
+        T += [('L1het', 2, 4), ('L1het', 3, 4)]
         from harness import c09
 
         T += [t for t in c09.tasks(tier, seed) if t[0] == 'hist' and (len(t) > 7 and t[7] or t[1] <= 2)]
@@ -131,6 +132,7 @@ def tasks(tier, seed):
         from harness import c09
 
         T += [t for t in c09.tasks(tier, seed) if t[0] in ('hist', 'adrun')]
+        T += [('L1het', 2, 6), ('L1het', 3, 6), ('L1het', 4, 6)]
         for NP, NMAX in [(1, 12), (2, 12), (3, 12), (4, 12), (5, 12), (6, 12), (7, 12), (8, 12)]:
             T.append(('L1', NP, NMAX))
         T.append(('witness',))
@@ -153,6 +155,8 @@ def run_task(rep, task):
         return c09.adrun_case(rep, *task[1:], pid=PID, clauses=('tiling', 'chaining'))
     if task[0] == 'L1':
         l1_case(rep, task[1], task[2])
+    elif task[0] == 'L1het':
+        l1het_case(rep, task[1], task[2])
     elif task[0] == 'witness':
         witness_case(rep)
     elif task[0] == 'L2':
@@ -164,6 +168,95 @@ def make_ctl(NP, dt, dtype=np.dtype('O'), maxiter=8):
              sweeper_params={'num_nodes': 1, 'quad_type': 'RADAU-RIGHT'}, level_params={'dt': dt, 'restol': 1.0},
              step_params={'maxiter': maxiter})
     return controller_nonMPI(NP, {'logger_level': 50, 'dump_setup': False, 'hook_class': [Rec]}, d)
+
+
+def l1het_case(rep, NP, NMAX):
+    """L1 with a different (symbolic) step size on every step of the controller -- the state an adaptive run with a shorter last block leaves behind
+    and from which a second run() on the same controller starts: the accepted steps must still tile and chain"""
+    name = f'L1het/NP{NP}/N<={NMAX}'
+    t0, Tend, x, dmin = z3.Reals('t0 Tend x dmin')
+    dts = [z3.Real(f'dt{p}') for p in range(NP)]
+    pre = [dmin > 0, Tend - rv(EPS10) > t0, t0 + NMAX * dmin >= Tend] + [d >= dmin for d in dts]
+
+    def fn(c):
+        LOG.clear()
+        for a in pre:
+            c.add(a)
+        ctl = make_ctl(NP, SymReal(dts[0]))
+        for p, S in enumerate(ctl.MS):
+            S.levels[0].params.dt = SymReal(dts[p])
+        P = ctl.MS[0].levels[0].prob
+        u0 = P.dtype_u(P.init)
+        u0[0] = SymReal(x)
+        try:
+            uend, stats = ctl.run(u0, SymReal(t0), SymReal(Tend))
+        except Exception as e:
+            return dict(exc=f'{type(e).__name__}: {str(e)[:200]}')
+        posts = [l for l in LOG if l[0] == 'post']
+        return dict(exc=None, n=len(posts), uend=R(uend[0]), posts=[(s, R(t), R(d_), R(a), R(b)) for _, s, t, d_, a, b in posts])
+
+    paths = explore(fn, max_paths=5000)
+    rep.paths += len(paths)
+    rep.decisions += sum(len(p.decisions) for p in paths)
+    e10 = rv(EPS10)
+    seen = set()
+    for i, p in enumerate(paths):
+        r = p.result
+        A = pre + list(p.pc)
+        if r['exc']:
+            res, model = satisfiable(A, name=f'{name}/path{i}:exception-witness')
+            if res == 'sat':
+                vals = {str(v): float(model_value(model, v)) for v in [t0, Tend] + dts}
+                if het_float(NP, vals) is not None:
+                    rep.violation(f'{PID}/different-step-sizes/exception', f'{name}: {r["exc"]} for {vals}', {'task': ['L1het', NP, NMAX], 'vals': vals, 'x': 0.5})
+            continue
+        n = r['n']
+        po = r['posts']
+        conds = {'tiling': z3.And([po[0][1] == t0] + [po[k + 1][1] == po[k][1] + po[k][2] for k in range(n - 1)] + [po[n - 1][1] + po[n - 1][2] >= Tend - e10]),
+                 'chaining': z3.And([po[0][3] == x] + [po[k + 1][3] == po[k][4] for k in range(n - 1)] + [po[k][4] == G(po[k][3], po[k][1]) for k in range(n)]),
+                 'returned-value': r['uend'] == po[n - 1][4],
+                 'no-start-at-or-after-Tend': z3.And([po[k][1] < Tend - e10 for k in range(n)])}
+        for clause, goal in conds.items():
+            res, model = prove(goal, A, name=f'{name}/path{i}:{clause}')
+            rep.ob(f'{name}/path{i}:{clause}', res)
+            if res == 'sat' and clause not in seen:
+                seen.add(clause)
+                rep.replayed += 1
+                vals = {str(v): float(model_value(model, v)) for v in [t0, Tend] + dts}
+                bad = het_float(NP, vals)
+                if bad:
+                    rep.violation(f'{PID}/different-step-sizes/{bad[0]}', f'{name}: clause(s) {bad} violated on the real float run for {vals}', {'task': ['L1het', NP, NMAX], 'vals': vals})
+                else:
+                    rep.unreproduced(f'{name}/path{i}:{clause}', vals)
+    rep.vac(f'{name}:several-step-counts', 'sat' if len({q.result.get('n') for q in paths if not q.result['exc']}) > 1 else 'unsat', 'sat')
+    rep.sample({'case': name, 'paths': len(paths), 'free_variables': 't0, Tend, one step size per step of the controller, start value'}, limit=3)
+
+
+def het_float(NP, vals):
+    """the same run on floats; list of violated clauses (None if the run raises)"""
+    LOG.clear()
+    ctl = make_ctl(NP, float(vals['dt0']), dtype=np.dtype('float64'))
+    for p, S in enumerate(ctl.MS):
+        S.levels[0].params.dt = float(vals[f'dt{p}'])
+    P = ctl.MS[0].levels[0].prob
+    u0 = P.dtype_u(P.init)
+    u0[0] = 0.5
+    try:
+        uend, _ = ctl.run(u0, float(vals['t0']), float(vals['Tend']))
+    except Exception as e:
+        return ['exception ' + type(e).__name__]
+    po = [l for l in LOG if l[0] == 'post']
+    bad = []
+    tol = lambda a: 1e-9 * (1 + abs(a))
+    if abs(po[0][2] - vals['t0']) > tol(vals['t0']) or any(abs(po[k + 1][2] - (po[k][2] + po[k][3])) > tol(po[k][2]) for k in range(len(po) - 1)) or po[-1][2] + po[-1][3] < vals['Tend'] - 1e-9:
+        bad.append('tiling')
+    if po[0][4] != 0.5 or any(po[k + 1][4] != po[k][5] for k in range(len(po) - 1)):
+        bad.append('chaining')
+    if uend[0] != po[-1][5]:
+        bad.append('returned-value')
+    if any(l[2] >= vals['Tend'] - 1e-12 for l in po):
+        bad.append('no-start-at-or-after-Tend')
+    return bad
 
 
 def l1_case(rep, NP, NMAX):
@@ -515,6 +608,11 @@ def l2_case(rep, NP, N, cap_s):
 
 def replay(path):
     d = json.load(open(path))['replay']
+    if isinstance(d.get('task'), list) and d['task'] and d['task'][0] == 'L1het':
+        bad = het_float(d['task'][1], d['vals'])
+        print('violated on the real float run:', bad)
+        print('REPRODUCED' if bad else 'not reproduced')
+        return 1 if bad else 0
     if isinstance(d.get('task'), list) and d['task'] and d['task'][0] in ('hist', 'adrun'):
         from harness import c09
 
